@@ -299,6 +299,9 @@ oscore_decode_option_value(const uint8_t *opt_value,
     }
     key_id.s = &(opt_value[offset]);
     cose_encrypt0_set_key_id(cose, &key_id);
+  } else if (offset != option_len) {
+    /* bytes left over that no flag bit announces */
+    return 0;
   }
   return 1;
 }
